@@ -112,8 +112,14 @@ impl Family for Handshakes {
     }
 }
 
+thread_local! {
+    /// the callback that reported the error then returns Err itself ("the client was told; drop it")
+    static THEN_FAIL: std::cell::Cell<bool> = std::cell::Cell::new(false);
+}
+
 fn run_site(ki: usize, site: usize, msg: Vec<u8>, hs: Option<u64>, st: &mut Stats) -> Result<(), Violation> {
     {
+        let then_fail = THEN_FAIL.with(|t| t.get());
         let (name, kind) = KINDS[ki];
         let c2 = Arc::new(vec![
             col("a", ColumnType::MYSQL_TYPE_LONG, ColumnFlags::empty()),
@@ -159,15 +165,26 @@ fn run_site(ki: usize, site: usize, msg: Vec<u8>, hs: Option<u64>, st: &mut Stat
             Cb::Query(_) | Cb::Execute { .. } => Behavior::Prog(prog.clone()),
             _ => Behavior::Silent,
         });
-        let o = run_conn(sim, ConnCfg::new(behave));
+        let mut cfg = ConnCfg::new(behave);
+        if then_fail {
+            let bound = conv.cmds[..conv.cmds.len() - 1].iter().filter(|c| matches!(c.payload[0], COM_QUERY | COM_STMT_PREPARE | COM_STMT_EXECUTE | COM_INIT_DB)).count();
+            cfg.fail_after = Some((bound - 1, 555));
+        }
+        let o = run_conn(sim, cfg);
         st.transitions += 1;
         if let ConnResult::Panic(l, m) = &o.res {
             return Err(Violation::new(panic_key(l, m), format!("run_on panicked at {}: {}", l, m)));
         }
-        if !o.res.is_ok() {
+        if then_fail {
+            if o.res != ConnResult::ErrMarker(555) {
+                return Err(Violation::new("late-shim-error-not-returned", format!("{} / {}: the callback reported the error and then failed; run_on returned {}", name, SITES[site], o.res.short())));
+            }
+        } else if !o.res.is_ok() {
             return Err(Violation::new("result-not-ok", format!("{} / {}: run_on returned {}", name, SITES[site], o.res.short())));
         }
-        let d = decode_all(delivered(&o), &conv, &s.last_seq, conv.cmds.len(), false).map_err(|e| Violation::new("reply-decode", format!("{} / {}: {}", name, SITES[site], e)))?;
+        // (when the callback fails afterwards the sentinel is never served)
+        let served = if then_fail { conv.cmds.len() - 1 } else { conv.cmds.len() };
+        let d = decode_all(delivered(&o), &conv, &s.last_seq, served, false).map_err(|e| Violation::new(if then_fail { "reported-error-did-not-arrive" } else { "reply-decode" }, format!("{} / {}{}: {}", name, SITES[site], if then_fail { " (the callback then returned Err)" } else { "" }, e)))?;
         // the reply that must carry the error is the one before the sentinel
         let r = &d.replies[conv.cmds.len() - 2];
         let e = match r.last() {
@@ -196,6 +213,34 @@ fn run_site(ki: usize, site: usize, msg: Vec<u8>, hs: Option<u64>, st: &mut Stat
             return Err(Violation::new("decoders-disagree", format!("{} / {}: mysql_common reads ({}, {:?}, {} bytes)", name, SITES[site], c2_, s2, m2_.len())));
         }
         Ok(())
+    }
+}
+
+/// the reporting callback then returns Err itself: the reported error must still have reached the
+/// client (flushed), and run_on returns the callback's error
+struct ReportedThenFailed {
+    kinds: Vec<usize>,
+    msgs: Vec<Vec<u8>>,
+}
+impl Family for ReportedThenFailed {
+    fn name(&self) -> String {
+        "error-reported-then-the-callback-fails".into()
+    }
+    fn len(&self) -> u64 {
+        (self.kinds.len() * SITES.len() * self.msgs.len()) as u64
+    }
+    fn run(&self, idx: u64, st: &mut Stats) -> Result<(), Violation> {
+        let d = digits(idx, &[self.kinds.len() as u64, SITES.len() as u64, self.msgs.len() as u64]);
+        st.nontrivial += 1;
+        st.bump("reported_then_failed");
+        THEN_FAIL.with(|t| t.set(true));
+        let r = run_site(self.kinds[d[0] as usize], d[1] as usize, self.msgs[d[2] as usize].clone(), None, st);
+        THEN_FAIL.with(|t| t.set(false));
+        r
+    }
+    fn describe(&self, idx: u64) -> J {
+        let d = digits(idx, &[self.kinds.len() as u64, SITES.len() as u64, self.msgs.len() as u64]);
+        json!({"kind": KINDS[self.kinds[d[0] as usize]].0, "site": SITES[d[1] as usize], "message_len": self.msgs[d[2] as usize].len(), "then": "the callback returns Err"})
     }
 }
 
@@ -283,7 +328,7 @@ pub fn build(quick: bool) -> Check {
     Check {
         id: "C13",
         level: "model_checking",
-        rule: format!("every ErrorKind variant of the tree under test ({} variants, list regenerated by build.rs) x 13 reporting sites (init via COM_INIT_DB and USE, prepare, query error fresh / after complete_one / after finish_one, finish_error after 0 rows / rows / a complete unended row in text mode, binary finish_error after 0 rows / rows, binary error after finish_one, query error after a served SET NAMES latin1 statement) x message classes (empty, 1 byte, 512 bytes, 5000 bytes, 70000 bytes in thorough, invalid UTF-8, leading '#', embedded NUL, leading 0xFF, valid UTF-8 with all characters below U+0100, valid UTF-8 with wider characters), each followed by a sentinel PING; every 97th (thorough: every) kind x all sites x 6 messages (up to 70000 bytes, beyond the max_packet_size these clients announce) again for clients that answered the greeting with the pre-4.1 layout, with CLIENT_PROTOCOL_41 alone and a latin1 collation, and with libmysqlclient's full set (db, plugin, attributes). Oracle: the decoded ERR carries (kind as u16, kind.sqlstate(), message bytes) and mysql_common reads the same; per variant: code <-> kind both ways, (name, code, SQLSTATE) equal the pinned golden table, codes equal the mysql client crate's independent table, 46 documented (code, SQLSTATE) anchors.", KINDS.len()),
+        rule: format!("every ErrorKind variant of the tree under test ({} variants, list regenerated by build.rs) x 13 reporting sites (init via COM_INIT_DB and USE, prepare, query error fresh / after complete_one / after finish_one, finish_error after 0 rows / rows / a complete unended row in text mode, binary finish_error after 0 rows / rows, binary error after finish_one, query error after a served SET NAMES latin1 statement) x message classes (empty, 1 byte, 512 bytes, 5000 bytes, 70000 bytes in thorough, invalid UTF-8, leading '#', embedded NUL, leading 0xFF, valid UTF-8 with all characters below U+0100, valid UTF-8 with wider characters), each followed by a sentinel PING; every 97th (thorough: every) kind x all sites x 6 messages (up to 70000 bytes, beyond the max_packet_size these clients announce) again for clients that answered the greeting with the pre-4.1 layout, with CLIENT_PROTOCOL_41 alone and a latin1 collation, and with libmysqlclient's full set (db, plugin, attributes). Every 53rd (thorough: 7th) kind x all sites x 4 messages again with the reporting callback returning Err afterwards: the ERR must still have been delivered and run_on returns the callback's error. Oracle: the decoded ERR carries (kind as u16, kind.sqlstate(), message bytes) and mysql_common reads the same; per variant: code <-> kind both ways, (name, code, SQLSTATE) equal the pinned golden table, codes equal the mysql client crate's independent table, 46 documented (code, SQLSTATE) anchors.", KINDS.len()),
         assumptions: vec![
             "trusted base for SQLSTATEs beyond the 46 anchors: the table pinned in /verif/data equals MariaDB's published one (as the generator comment in errorcodes.rs states); variants added later are checked for self-consistency only".into(),
         ],
@@ -293,9 +338,10 @@ pub fn build(quick: bool) -> Check {
         families: vec![
             Box::new(Sites { msgs }),
             Box::new(Handshakes { kinds: (0..KINDS.len()).step_by(if quick { 97 } else { 1 }).collect(), msgs: vec![vec![], b"denied #1".to_vec(), "caf\u{e9} \u{fc}ber".as_bytes().to_vec(), vec![b'm'; 600], (0..5000).map(|i| b'A' + (i % 26) as u8).collect(), vec![b'z'; 70_000]] }),
+            Box::new(ReportedThenFailed { kinds: (0..KINDS.len()).step_by(if quick { 53 } else { 7 }).collect(), msgs: vec![vec![], b"denied".to_vec(), vec![b'm'; 600], vec![b'L'; 70_000]] }),
             Box::new(Tables),
             Box::new(super::aftermath::Aftermath { prop: "C13" }),
         ],
-        required: vec!["aftermath_recovered", "errors_to_other_handshakes", "errors_after_resultset_header", "golden_rows_checked", "client_crate_rows_checked", "anchors_checked"],
+        required: vec!["aftermath_recovered", "reported_then_failed", "errors_to_other_handshakes", "errors_after_resultset_header", "golden_rows_checked", "client_crate_rows_checked", "anchors_checked"],
     }
 }
